@@ -60,6 +60,13 @@ CLAIMED["C09"] = ("exploration",
   "amd64 memory ordering for the plain-word baton; sync.Pool overlay (Put always drops under -race); the race detector sees only accesses a trial executes; gocommon's random package holds its own mutex around generator calls, so random draws are not yield points.",
   "DESIGN.md §3.6, §5 C09")
 
+sim_claim("C07", "trace validation: every router test call recorded through the exported test registry and checked, per routed step in execution order, against a reference decision-list model; random draws and timeouts are owned by the simulator",
+  "Narrowed scope: decides the decision-list semantics in context (cases tried in definition order up to and including the first truthy result with errors counting as no match, default category otherwise, timeout resume => the wait's timeout category, random router => category floor(r*n) for a draw r that the simulator's own random source supplied during that call, no router => first exit, no category => the run fails) and the saved result (category name, value = match or operand, input = operand), in live simulated sprints. It does not decide whether each individual test function is right for every operand (pure).",
+  "Calls are attributed to routings twice, by a control-flow reference model and by pointer-identical operands; sprints where the two cannot be reconciled (e.g. adjacent routings with a nil operand) are skipped and counted, never judged. Result checks use large character limits so that nothing is truncated.")
+sim_claim("C18", "reference model of the documented language fallback evaluated over marked texts in event order, while contact language, allowed languages and translations change during the session",
+  "Narrowed scope: for the configurations and histories the simulator drives. Every literal text of generated flows carries a marker naming (item, language, property); scanning each sprint's events in order and tracking the contact language (set_contact_language earlier in the sprint, UI edits / contact_refreshed between sprints) and the environment (environment_refreshed), every msg_created is compared with the reference chain (contact language if allowed -> environment default -> flow base; [] and [\"\"] count as empty; text, attachments, quick replies independently; locale = language of the text, then attachments, then quick replies), as are category_localized of results and the literal arguments handed to router tests.",
+  "The chain itself is a small pure function: this check claims the histories in which its inputs change, not an enumeration of configurations. Test calls are placed between events by the simulated clock (skipped under a frozen clock).")
+
 NOT_BUILT = {
 }
 
